@@ -303,6 +303,8 @@ class Call2Mixin:
       return o
     if isinstance(v, VMList):
       o = VMList(v.seq, v.is_deque)
+      if getattr(v, 'maxlen', None) is not None:
+        o.maxlen = v.maxlen
     elif isinstance(v, VList):
       o = VList([self.clone(x, memo) for x in v.items])
     elif isinstance(v, VTuple):
